@@ -68,7 +68,7 @@ theorem Inv.congr_maps {W : World} {c c1 : Ctx} {L : List Ev} (hi : Inv W c L)
     by have := hi.fv; simpa [fvKeys, hfv] using this⟩
 
 mutual
-theorem sim_node : ∀ (node : QNode) (W : World) (_hl : W.lim = false) (miss : Bool) (vid : Vid)
+theorem sim_node : ∀ (node : QNode) (W : World) (miss : Bool) (vid : Vid)
     (L : List Ev) (ss : List Stage) (evs : List Ev), NodeCert W miss node vid L ss evs →
     ∀ (fuel ifuel : Nat), height node ≤ fuel → foldHeight node ≤ ifuel →
     ∀ (base : List (Name × Tagged)) (c : Ctx), Inv W c L → SimHyps W base (L ++ evs) →
@@ -76,7 +76,7 @@ theorem sim_node : ∀ (node : QNode) (W : World) (_hl : W.lim = false) (miss : 
     SimO (absL W base (L ++ evs))
       (fun c' => Ext c c' ∧ Inv W c' (L ++ evs) ∧ (c.active = none → c'.active = none))
       (nodeO W ifuel vid ss c) (evalNode W.senv fuel node c.active (absL W base L c)).toOption
-  | .mk ct fields, W, hl, miss, vid, L, ss, evs, hcert, fuel, ifuel, hfuel, hifuel, base, c, hi, hs,
+  | .mk ct fields, W, miss, vid, L, ss, evs, hcert, fuel, ifuel, hfuel, hifuel, base, c, hi, hs,
       hmiss => by
     unfold NodeCert at hcert
     obtain ⟨V, evs', rfl, hV, hvid, hco, hfl, hTG, hOG, hF⟩ := hcert
@@ -107,7 +107,7 @@ theorem sim_node : ∀ (node : QNode) (W : World) (_hl : W.lim = false) (miss : 
         simp only [Bool.false_eq_true, if_false, runO_nil_ctx]
         exact SimO.nil _ _
       · simp only [R.toOption_ok, Option.map_some, boolCtx, Option.bind_some, if_true]
-        have hrec := sim_fields fields W hl miss vid (L ++ [.vtx vid]) ss evs' hF f ifuel hfuel'
+        have hrec := sim_fields fields W miss vid (L ++ [.vtx vid]) ss evs' hF f ifuel hfuel'
           hifuel' base (Ctx.record c vid) c.active (hi.record vid) (by simp)
           (vertexAt_record c vid hfresh) (fun h => h) hmiss (by simpa using hs)
         have hL : L ++ Ev.vtx vid :: evs' = (L ++ [.vtx vid]) ++ evs' := by simp
@@ -119,7 +119,7 @@ theorem sim_node : ∀ (node : QNode) (W : World) (_hl : W.lim = false) (miss : 
       · exact SimO.none _ _
     · simp only [hcoe, Bool.false_eq_true, if_false, Option.bind_some, runO_nil_ctx]
       exact SimO.nil _ _
-theorem sim_fields : ∀ (fields : List QField) (W : World) (_hl : W.lim = false) (miss : Bool)
+theorem sim_fields : ∀ (fields : List QField) (W : World) (miss : Bool)
     (vid : Vid) (L : List Ev) (ss : List Stage) (evs : List Ev),
     FieldsCert W miss fields vid L ss evs →
     ∀ (fuel ifuel : Nat), heightFields fields ≤ fuel → foldHeightFields fields ≤ ifuel →
@@ -130,19 +130,19 @@ theorem sim_fields : ∀ (fields : List QField) (W : World) (_hl : W.lim = false
       (fun c' => Ext c c' ∧ Inv W c' (L ++ evs) ∧ (v = none → c'.active = none))
       (runO W ifuel ss [c])
       (evalFields W.senv fuel (ownersOf W.D v) fields v [absL W base L c]).toOption
-  | [], W, _, miss, vid, L, ss, evs, hcert, fuel, ifuel, _, _, base, c, v, hi, _, _, hact, _, _ => by
+  | [], W, miss, vid, L, ss, evs, hcert, fuel, ifuel, _, _, base, c, v, hi, _, _, hact, _, _ => by
     unfold FieldsCert at hcert
     obtain ⟨rfl, rfl⟩ := hcert
     simp only [runO, evalFields_nil, R.toOption_ok, List.append_nil]
     exact SimO.single _ ⟨Ext.refl c, hi, hact⟩
-  | .prop n dirs :: rest, W, hl, miss, vid, L, ss, evs, hcert, fuel, ifuel, hfuel, hifuel, base, c, v,
+  | .prop n dirs :: rest, W, miss, vid, L, ss, evs, hcert, fuel, ifuel, hfuel, hifuel, base, c, v,
       hi, hvL, hv, hact, hmiss, hs => by
     unfold FieldsCert at hcert
     rw [evalFields_prop]
-    exact sim_fields rest W hl miss vid L ss evs hcert fuel ifuel
+    exact sim_fields rest W miss vid L ss evs hcert fuel ifuel
       (by simpa [heightFields] using hfuel) (by simpa [foldHeightFields] using hifuel) base c v hi hvL
       hv hact hmiss hs
-  | .edge n params kind child :: rest, W, hl, miss, vid, L, ss, evs, hcert, fuel, ifuel, hfuel, hifuel,
+  | .edge n params kind child :: rest, W, miss, vid, L, ss, evs, hcert, fuel, ifuel, hfuel, hifuel,
       base, c, v, hi, hvL, hv, hact, hmiss, hs => by
     unfold FieldsCert at hcert
     have hfC : height child ≤ fuel := by simp only [heightFields] at hfuel; omega
@@ -167,7 +167,7 @@ theorem sim_fields : ∀ (fields : List QField) (W : World) (_hl : W.lim = false
         have hk : vid ∈ keys c := by rw [hi.vk]; exact mem_vtxs.2 hvL
         rw [vertexAt?_eq_look (hext.keys_subset hk), look_stable hext hk]
         unfold look; rw [hv]; rfl
-      have hrec := sim_fields rest W hl miss vid (L ++ evs1) ssR evsR hR fuel ifuel hfR hifR base c' v
+      have hrec := sim_fields rest W miss vid (L ++ evs1) ssR evsR hR fuel ifuel hfR hifR base c' v
         hinv' (List.mem_append_left _ hvL) hvc' hactc' hmiss hsR
       exact hrec.mono fun c'' h'' => ⟨hext.trans h''.1, h''.2.1, h''.2.2⟩
     cases kind
@@ -185,14 +185,14 @@ theorem sim_fields : ∀ (fields : List QField) (W : World) (_hl : W.lim = false
       have hvisitIn : VisitOK [f.toVid] ssIn :=
         (visit_node child (W.inner f) false f.toVid [] ssIn evsIn hcertIn (by simpa using hndIn)
           [f.toVid] (by simp [evVid])).1
-      have hnilIn := nodeCert_stage_nil child (W.inner f) false f.toVid [] ssIn evsIn hcertIn hl k
+      have hnilIn := nodeCert_stage_nil child (W.inner f) false f.toVid [] ssIn evsIn hcertIn k
       have hin : ∀ (base' : List (Name × Tagged)) (c0 : Ctx), Inv (W.inner f) c0 [] →
           c0.active.isSome → SimHyps (W.inner f) base' evsIn →
           SimO (absL (W.inner f) base' evsIn) (fun c' => Inv (W.inner f) c' evsIn)
             (nodeO (W.inner f) k f.toVid ssIn c0)
             (evalNode W.senv fuel child c0.active (absL (W.inner f) base' [] c0)).toOption := by
         intro base' c0 hinv0 hact0 hs0
-        have := sim_node child (W.inner f) hl false f.toVid [] ssIn evsIn hcertIn fuel k hfC hifC base'
+        have := sim_node child (W.inner f) false f.toVid [] ssIn evsIn hcertIn fuel k hfC hifC base'
           c0 hinv0 (by simpa using hs0) (fun _ => hact0)
         simp only [List.nil_append] at this
         exact this.mono fun c' h => h.2.1
@@ -204,11 +204,11 @@ theorem sim_fields : ∀ (fields : List QField) (W : World) (_hl : W.lim = false
             (absL W base L c)).toOption := by
         cases v with
         | none =>
-          have := fold_stage_none W hl facts hcertIn fuel k hvisitIn hnilIn base c hi hv
+          have := fold_stage_none W facts.lim facts hcertIn fuel k hvisitIn hnilIn base c hi hv
             (fun hm => by simpa using hmiss hm) hs1
           exact this.mono fun c' h => ⟨h.1, h.2.1, fun _ => h.2.2⟩
         | some x =>
-          have := fold_stage_some W hl facts hcertIn fuel k hvisitIn hnilIn hndIn hin base c x hi hvL hv
+          have := fold_stage_some W facts.lim facts hcertIn fuel k hvisitIn hnilIn hndIn hin base c x hi hvL hv
             hs1
           exact this.mono fun c' h => ⟨h.1, h.2.1, fun hx => by cases hx⟩
       rw [runO_cons_single, evalFields_edge_toOption, flatMapO_singleton]
@@ -257,7 +257,7 @@ theorem sim_fields : ∀ (fields : List QField) (W : World) (_hl : W.lim = false
       · apply SimO.flatMapO
         intro s hs'
         have hi1 : Inv W ({ c1 with active := s } : Ctx) L := hi.congr_maps hv1 hf1 hfv1
-        have hsim := sim_node child W hl _ e.toVid L ssC evsC hC fuel ifuel hfC hifC base
+        have hsim := sim_node child W _ e.toVid L ssC evsC hC fuel ifuel hfC hifC base
           { c1 with active := s } hi1 hsC (by
             intro hcm
             obtain ⟨hm, hk0⟩ := childMiss_false hcm
